@@ -513,3 +513,91 @@ theorem leftPerm_explicit (pre : List Nat) (sq sp : Nat) (post : List Nat) :
 
 end listlevel
 end QM.C07
+
+namespace QM.C07
+/-! ## change of scalars (the driver computes the permutation over ℤ and casts to ℚ) -/
+section cast
+variable {K L : Type} [CommSemiring K] [CommSemiring L] (φ : K →+* L)
+
+theorem dmat_ext' {r c : Nat} (m1 m2 : Mat L r c) (h : ∀ i j, m1.get i j = m2.get i j) :
+    (⟨r, c, m1⟩ : DMat L) = ⟨r, c, m2⟩ := by
+  congr; exact Mat.ext' h
+
+theorem map_eye (n : Nat) : (DMat.eye n : DMat K).map φ = DMat.eye n := by
+  unfold DMat.map DMat.eye
+  apply dmat_ext'
+  intro i j
+  simp only [Mat.get_ofFn, Mat.one]
+  split <;> simp
+
+theorem map_kron (A B : DMat K) : (A.kron B).map φ = (A.map φ).kron (B.map φ) := by
+  unfold DMat.map DMat.kron
+  apply dmat_ext'
+  intro i j
+  simp [kron]
+
+theorem map_Kmat (a b : Nat) :
+    (⟨a * b, b * a, Kmat a b⟩ : DMat K).map φ = ⟨a * b, b * a, Kmat a b⟩ := by
+  unfold DMat.map
+  apply dmat_ext'
+  intro i j
+  simp only [Mat.get_ofFn, Kmat_entry]
+  split <;> simp
+
+theorem map_leftPerm (pos : Nat) (sizes : List Nat) :
+    (leftPerm (K := K) pos sizes).map (DMat.map φ) = leftPerm (K := L) pos sizes := by
+  unfold leftPerm
+  simp only [bind, Except.bind, pure, Except.pure]
+  cases sizes[pos]? <;> cases sizes[pos - 1]? <;>
+    simp [Except.map, throw, throwThe, MonadExceptOf.throw, map_kron, map_eye, map_Kmat]
+
+theorem map_mul (A B : DMat K) :
+    (A.mul B).map (DMat.map φ) = (A.map φ).mul (B.map φ) := by
+  obtain ⟨ar, ac, am⟩ := A
+  obtain ⟨br, bc, bm⟩ := B
+  by_cases h : ac = br
+  · subst h
+    have hl : DMat.mul (⟨ar, ac, am⟩ : DMat K) ⟨ac, bc, bm⟩ = .ok ⟨ar, bc, am.mul bm⟩ := by simp [DMat.mul]
+    have hr : DMat.mul (DMat.map φ (⟨ar, ac, am⟩ : DMat K)) (DMat.map φ ⟨ac, bc, bm⟩)
+        = .ok ⟨ar, bc, (Mat.ofFn fun i j => φ (am.get i j)).mul (Mat.ofFn fun i j => φ (bm.get i j))⟩ := by
+      simp [DMat.mul, DMat.map]
+    rw [hl, hr]
+    simp only [Except.map]
+    congr 1
+    unfold DMat.map
+    apply dmat_ext'
+    intro i j
+    simp [Mat.mul, fsum_eq_sum, map_sum]
+  · simp [DMat.mul, DMat.map, h, Except.map]
+
+theorem map_calcPermLoop (fuel : Nat) (order sizes : List Nat) (perm : DMat K) :
+    (calcPermLoop (K := K) leftPerm fuel order sizes perm).map (fun r => (r.1.map φ, r.2))
+      = calcPermLoop (K := L) leftPerm fuel order sizes (perm.map φ) := by
+  induction fuel generalizing order sizes perm with
+  | zero => simp [calcPermLoop, Except.map]
+  | succ f ih =>
+    unfold calcPermLoop
+    split
+    · simp [Except.map]
+    · rename_i pos _
+      rw [← map_leftPerm φ pos sizes]
+      cases hl : leftPerm (K := K) pos sizes with
+      | error e => simp [Except.map]
+      | ok left =>
+        simp only [Except.map]
+        rw [← map_mul φ left perm]
+        cases hm : left.mul perm with
+        | error e => simp [Except.map]
+        | ok p' => simp only [Except.map]; exact ih _ _ _
+
+/-- `calc_permutation_matrix` commutes with a change of scalars: computing the permutation matrix over `K` and casting
+its entries is computing it over `L` -/
+theorem map_calcPerm (order sizes : List Nat) :
+    (calcPerm (K := K) order sizes).map (DMat.map φ) = calcPerm (K := L) order sizes := by
+  unfold calcPerm
+  rw [← map_eye φ, ← map_calcPermLoop φ]
+  cases calcPermLoop (K := K) leftPerm (order.length * order.length + 1) order sizes (DMat.eye (prodL sizes)) <;>
+    simp [Except.map]
+
+end cast
+end QM.C07
